@@ -1,6 +1,7 @@
 package main
 
 import (
+	"tags.cncf.io/container-device-interface/schema"
 	"encoding/json"
 	"fmt"
 	"math/rand"
@@ -363,6 +364,25 @@ func (cacheStream) Generate(rng *rand.Rand, tier string, emit func(Case)) {
 				}
 			}
 		}
+		if i%7 == 2 {
+			// the builtin schema is installed as Spec validator (as the cdi tool does) and the first file scanned is one
+			// the library's own checks accept and the schema refuses: it is a file in error, and only it
+			for _, d := range l.Dirs {
+				if strings.HasPrefix(d, "p:") {
+					ll := l
+					ll.Phys = map[string][]fileDesc{}
+					for p, fs := range l.Phys {
+						ll.Phys[p] = append([]fileDesc{}, fs...)
+					}
+					ll.Phys[d[2:]] = append(ll.Phys[d[2:]], fileDesc{Name: "00-schema-only.json", Kind: "schemaonly", Vendor: "v2.com", Class: "c2", Devs: []string{"d2"}, Tag: "SO"})
+					jj, _ := json.Marshal(ll)
+					var mm map[string]any
+					_ = json.Unmarshal(jj, &mm)
+					emit(Case{"op": "refresh", "layout": mm, "auto": false, "validator": true, "nospawn": true})
+					break
+				}
+			}
+		}
 		if i%6 == 1 {
 			// an auto-refresh cache whose directories are removed altogether (rm -rf), which the cache notices, and then
 			// come back with the same content (a package reinstalled, a tmpfs remounted): after a refresh the cache shows
@@ -706,6 +726,12 @@ func (cacheStream) Execute(c Case) {
 		}
 	}()
 	auto, _ := c["auto"].(bool)
+	if v, _ := c["validator"].(bool); v {
+		if sch, err := schema.Load("builtin"); err == nil {
+			cdi.SetSpecValidator(schema.WithSchema(sch))
+			defer cdi.SetSpecValidator(nil)
+		}
+	}
 	// a file of the layout that only appears once the cache exists and has been queried
 	var lateData []byte
 	latePath := ""
